@@ -110,17 +110,17 @@ class P(Prop):
             return
         for inst, bb, pins in m.bb_insts:
             if inst not in c.blackboxes or c.blackboxes[inst].name != bb.name:
-                self.fail("search", "verilog-bb-missing", f"instance {inst} missing", case)
+                self.fail("search", "verilog-bb-missing" + self.synth_clash(m), f"instance {inst} missing", case)
                 return
             for pin, net in pins.items():
                 node = f"{inst}.{pin}"
                 if node not in c.graph.nodes:
-                    self.fail("search", "verilog-bb-pin-missing", f"pin {node} missing", case)
+                    self.fail("search", "verilog-bb-pin-missing" + self.synth_clash(m), f"pin {node} missing", case)
                     return
                 nb = set(c.graph.predecessors(node)) if pin in bb.input_set else set(c.graph.successors(node))
                 want = set() if net in (None, "__omit__") else {net}
                 if nb != want:
-                    self.fail("search", "verilog-bb-pin", f"pin {node} attached to {sorted(nb)}, netlist says {sorted(want)}", case)
+                    self.fail("search", "verilog-bb-pin" + self.synth_clash(m), f"pin {node} attached to {sorted(nb)}, netlist says {sorted(want)}", case)
                     return
         free = m.free_names()
         if len(free) > 7 or c.is_cyclic():
